@@ -73,3 +73,30 @@ package cli
 //@ at call monitoring.NewCounter#1 assert arg(name) == "engine_Responses"
 //@ at call monitoring.NewCounter#2 assert arg(name) == "engine_UsersStarted"
 //@ at call monitoring.NewCounter#3 assert arg(name) == "engine_UsersFinished"
+
+// The command line: -version prints and returns, everything else reads the configuration and runs the engine once.
+//@ func Run
+//@ props C05 C17
+//@ may_panic true
+//@ ensures [at-most-one-run] calls(ReadConfigAndRunEngine) <= 1
+
+// The once-a-second engine report reads the engine's counters and publishes the differences (no fault: safety only).
+//@ func startReport
+//@ props C03
+//@ nilsafe
+//@ may_panic true
+//@ requires m.Request != nil && m.Response != nil && m.InstanceStart != nil && m.InstanceFinish != nil
+
+//@ func startReport#lit0
+//@ props C03
+//@ nilsafe
+//@ may_panic true
+//@ requires m.Request != nil && m.Response != nil && m.InstanceStart != nil && m.InstanceFinish != nil && evReqPS != nil && evResPS != nil && evActiveUsers != nil && evActiveRequests != nil
+
+// Monitoring: the expvar server and the profiles start only when enabled; what is returned stops what was started.
+// (The default configuration has all three sections and decoding never takes one away: a section left out keeps its default.)
+//@ func startMonitoring
+//@ props C17 C13
+//@ nilsafe
+//@ env [default-sections-are-kept-by-the-decoder] conf.CPUProfile != nil && conf.MemProfile != nil
+//@ ensures [a-stop-function-is-always-returned] stop != nil
